@@ -166,6 +166,7 @@ PqExtend(s, pairs, rebuild, f) ==
 BetterToRebuild(len1, len2) == IF len1 <= 1 THEN FALSE ELSE 2 * (len1 + len2) < len2 * Log2(len1)
 ExtendRebuilds(len, hint) ==
   IF hint[2] = -9 THEN FALSE ELSE
+  IF hint[2] = -8 THEN Log2(len) >= 3 ELSE          \* 2 (len + h) < h log2(len) for h >> len
   IF hint[2] # -1 THEN BetterToRebuild(len, hint[2])
   ELSE IF hint[1] # 0 THEN BetterToRebuild(len, hint[1]) ELSE FALSE
 
